@@ -3,6 +3,7 @@ import GoawkModel.C05Cmp
 import Proofs.C05Value
 import Proofs.C05Tables
 import Proofs.C05Scan
+import Proofs.C05Rec
 /-!
 # C05 — number/string conversion and comparison typing follow the AWK value model
 
@@ -157,6 +158,44 @@ theorem same_number (sc : Strconv Num) (s : Bytes) (n : Num) (h : isTrueStr sc (
   | some r =>
     simp [hw] at h
     simp [toNum, toBool, hw, whole_prefix_agree sc.ovf s r hw, h]
+
+/-! ## provenance is per value: a freshly read record does not depend on the history -/
+
+/-- after ANY history of operations on earlier records (assigning `$k`, `$0`, `NF`, sub/gsub, getline into a field —
+all of which set "true string" flags), the next record read has `$0` and every field input-derived again: `$0` is the
+numeric-string of the line and `$(k+1)` the numeric-string of the k-th split field, for every FS (`split`), OFS (`join`),
+start state and history -/
+theorem fresh_record_provenance (split : Bytes → List Bytes) (join : List Bytes → Bytes) (r0 : Rec)
+    (history : List RecOp) (line : Bytes) :
+    let r := (r0.run split join history).step split join (.read line)
+    r.getField 0 = .numstr line ∧
+    (∀ k f, (split line)[k]? = some f → r.getField (k + 1) = .numstr f) ∧
+    (∀ k, (split line)[k]? = none → r.getField (k + 1) = .str []) := by
+  refine ⟨rfl, fun k f h => Rec.getField_ofLine split line k f h, fun k h => ?_⟩
+  simp [Rec.step, Rec.getField, Rec.ofLine, h]
+
+/-- hence its comparison mode is decided by its own text alone -/
+theorem fresh_field_mode (sc : Strconv Num) (split : Bytes → List Bytes) (join : List Bytes → Bytes) (r0 : Rec)
+    (history : List RecOp) (line : Bytes) (k : Nat) (f : Bytes) (h : (split line)[k]? = some f) (other : Val) :
+    cmpMode sc (((r0.run split join history).step split join (.read line)).getField (k + 1)) other =
+      cmpMode sc (.numstr f) other := by
+  rw [(fresh_record_provenance split join r0 history line).2.1 k f h]
+
+/-- the flag vector and the field vector keep the same length through every history (so `getField` never reads a
+flag of another record's field) -/
+theorem flags_track_fields (split : Bytes → List Bytes) (join : List Bytes → Bytes) (line : Bytes) (b : Bool)
+    (history : List RecOp) : ((Rec.ofLine split line b).run split join history).WF :=
+  Rec.wf_run split join history _ (Rec.wf_ofLine split line b)
+
+/-- within a record an assigned field is a true string and `$0` becomes one, the other fields keep their provenance -/
+example : let r := (Rec.ofLine (fun _ => [[49], [50]]) [49, 32, 50] false).setField (fun _ => [120]) 1 [57]
+    r.getField 2 = .str [57] ∧ r.getField 1 = .numstr [49] ∧ r.getField 0 = .str [120] := by decide
+
+theorem gen_matches_record_flags :
+    Generated.C05Cmp.src_setLine_flags = ["p.lineIsTrueStr = isTrueStr"] ∧
+    Generated.C05Cmp.src_ensureFields_flags =
+      ["p.fieldsIsTrueStr = p.fieldsIsTrueStr[:0]", "for range p.fields { p.fieldsIsTrueStr = append(p.fieldsIsTrueStr, false) }"] :=
+  ⟨gen_matches_record.1, gen_matches_record.2.1⟩
 
 /-! ## truth test -/
 
